@@ -101,6 +101,25 @@ def run(ck, F):
                 if is_field_list(os_, a):
                     appends.append((bb, t))
                     break
+    # .. and appends made from a closure of the function (`children().filter(..).try_for_each(|_| import_sequence(.., base_fields))`):
+    # the closure captured the field list; the site is where the closure is made (it is run by the iteration that follows)
+    for i_ in sorted(B.reach):
+        for st in B.blocks[i_]["stmts"]:
+            if not (st["k"] == "assign" and st["rv"]["k"] == "aggregate" and st["rv"].get("closure")):
+                continue
+            cfact = F.lib.body(st["rv"]["closure"])
+            if cfact is None or not cfact.get("mir"):
+                continue
+            CB = M.Body(cfact)
+            for cbb_, ct_ in CB.calls():
+                d = M.Body.callee(ct_) or ""
+                if not any(d.endswith(a) for a in APPENDERS):
+                    continue
+                for a in ct_["args"]:
+                    ups = [o for o in M.trace(CB, a, ()) if o.kind == "upvar"]
+                    if ups and all(u.index < len(st["rv"]["ops"]) and is_field_list(M.trace(B, st["rv"]["ops"][u.index], ()), st["rv"]["ops"][u.index]) for u in ups):
+                        appends.append((i_, ct_))
+                        break
     if len(copies) != 1:
         ck.violation("R1", f"base-copy:count={len(copies)}", fb["span"],
                      f"{ext_short} copies the base struct's fields {len(copies)} times (expected exactly one copy from `<base>.fields`)", fn="extension")
